@@ -315,7 +315,19 @@ pub fn run(cfg: &Cfg) -> i32 {
         let mut r = cfg.prng("C10", idx);
         // keep the recorded wire from growing without bound
         if i % 2000 == 1999 {
-            s = sess::establish_ok(&caps);
+            // the same code established a session at the start of this run: if it cannot any more,
+            // what changed is state the library kept from the messages serialised in between
+            match sess::establish(&crate::memwire::server_hello(&caps, "4242")) {
+                sess::Established::Ok(n) => s = n,
+                other => {
+                    rep.violation(
+                        "session:hello-not-sendable-after-earlier-messages",
+                        &format!("a new session could not be established after {i} requests on this thread: {other:?}"),
+                        json!({"case_index": idx, "seed": cfg.seed, "requests_before": i}),
+                    );
+                    break;
+                }
+            }
         }
         if r.chance(1, 8) {
             #[cfg(feature = "full")]
